@@ -1055,7 +1055,7 @@ package avro
 //@ axiom mblock_size_exact(c ptr, b bytes, i int): vval(b, i) < 0 ==> mitems(c, b, vend(b, vend(b, i)), -vval(b, i)) == vend(b, vend(b, i)) + int(vval(b, vend(b, i)))
 
 //@ type *MapCodec : dsz = 8 ; wfc = this != nil && this.valueCodec != nil && wfc(this.valueCodec) ; typed = this.rtype != nil && data(this.rtype) != nil && typed(this.valueCodec) && 0 <= dsz(this.valueCodec) ; \
-//@      cend(b, i) = mblk(this, b, i) ; wfval(p) = rdable(p, 8)
+//@      cend(b, i) = mblk(this, b, i) ; wfval(p) = rdable(p, 8) && mapOK(this.valueCodec, ptr(mem64(p)))
 
 //@ func (*MapCodec).Skip
 //@   props C06
@@ -1542,3 +1542,26 @@ package avro
 //@   ensures [C05,C20,C03,C04,C06] wfRBS(r) && r.i == i0 && r.buf == b0 && sameobj(b0)
 //@   ensures [C05,C20,C11,C03,C06] newOK(r, res, rtypesz(data(rc.rtype)))
 //@   modifies r.rb.types, type resourceType, M[0, 0]
+
+// Avro map encoding produced: count l (then nothing more if l == 0), the l entries as (string key, value) in
+// iteration order, count 0.  The declared count is the number of entries the iterator delivers.
+//@ axiom mapelem_ok(c iface, m ptr, v ptr): mapOK(c, m) && iselem(m, v) ==> wfval(c, v)
+//@ func (*MapCodec).Write
+//@   implements Codec.Write
+//@   props C02, C13
+//@   let b0 := w.buf, mp := ptr(mem64(p)), l := mapcount(ptr(mem64(p)))
+//@   requires w != nil && wfc(asiface(m)) && typed(asiface(m)) && rdable(p, 8) && mapOK(m.valueCodec, ptr(mem64(p)))
+//@   ensures [C02,C13] tlen() >= 1 && tkind(0) == evV && ta(0) == uint64(l)
+//@   ensures [C02,C13] l == 0 ==> tlen() == 1
+//     entry k is the string key (length varint, bytes) followed by the value written by the value codec
+//@   ensures [C02,C13] l > 0 ==> tlen() == 3 * l + 2 && tkind(3 * l + 1) == evV && ta(3 * l + 1) == 0 \
+//@        && (forall k int :: 0 <= k && k < l ==> tkind(3 * k + 1) == evV && tkind(3 * k + 2) == evW && ta(3 * k + 2) == ta(3 * k + 1) && tkind(3 * k + 3) == evCW && ta(3 * k + 3) == tag(m.valueCodec) && tb(3 * k + 3) == uint64(data(m.valueCodec)))
+//@   ensures len(b0) <= len(w.buf) && (forall k int :: 0 <= k && k < len(b0) ==> w.buf[k] == old(b0[k])) && (base(w.buf) == old(base(w.buf)) || (newobj(w.buf) && !cowned(w.buf))) && off(w.buf) == old(off(w.buf))
+//     (the runtime iterator is a local of this activation: its ghost state iter.* is not visible to callers)
+//@   modifies w.buf, BH[w.buf]
+//@   loop 1 invariant 0 <= iterleft() && iterleft() <= l && l > 0 && itermap() == uint64(mp) && rdable(p, 8) && memframe(p, 0)
+//@   loop 1 invariant tlen() == 3 * (l - iterleft()) + 1 && tkind(0) == evV && ta(0) == uint64(l) \
+//@        && (forall k int :: 0 <= k && k < l - iterleft() ==> tkind(3 * k + 1) == evV && tkind(3 * k + 2) == evW && ta(3 * k + 2) == ta(3 * k + 1) && tkind(3 * k + 3) == evCW && ta(3 * k + 3) == tag(m.valueCodec) && tb(3 * k + 3) == uint64(data(m.valueCodec)))
+//@   loop 1 invariant w != nil && len(b0) <= len(w.buf) && (forall k int :: 0 <= k && k < len(b0) ==> w.buf[k] == old(b0[k])) && (base(w.buf) == old(base(w.buf)) || (newobj(w.buf) && !cowned(w.buf))) && off(w.buf) == old(off(w.buf)) && bhframe(b0)
+//@   after mapiterelem#1 apply mapelem_ok(m.valueCodec, mp, v)
+//@   loop 1 decreases iterleft()
